@@ -14,7 +14,7 @@ func init() {
 		Level: "other",
 		Explanation: "Structure of the posting→script translation decided for every list of postings: R09a (clean provenance) every piece of text written into the generated script is a constant, or a constant format filled with generated variable names (`variable.name`, itself a constant format filled with a counter) — client text (source, destination, asset, amount) never becomes script text, it only travels in the vars map; " +
 			"R09b every path through one iteration of the emitting loop, which ranges in order over the postings of the parameter, writes exactly one `send …` header; R09e attribution: the `source =` line uses the variable looked up by the current posting's Source, the `destination =` line by its Destination, the send header by the monetary key built from its Amount and Asset with the same format the registration loop uses; registered values are the posting's own fields; every variable is exported to the vars map as name→value. " +
-			"R09c metadata, reference and timestamp are passed through by name into the RunScript and from the script into the committed transaction (WithDate/WithReference/WithPostings/WithMetadata). R09l every TransactionData/RunScript built from a transaction request (v1 and v2/bulk) takes the request's Timestamp, Reference and Metadata by name. R09k every handler of internal/api that answers an error returns before it calls the engine or answers again (a request that failed validation is never executed). R09i every request decoded inside a loop (bulk elements) is decoded into a value allocated in that iteration. R09g exact amounts: no floating-point value, math/big.Float or float parser in the packages that decode, execute and commit postings. R09d validation precedes execution (v1: Postings.Validate dominates TxToScriptData; all versions: SetVarsFromJSON precedes ResolveResources on the same machine).",
+			"R09c metadata, reference and timestamp are passed through by name into the RunScript and from the script into the committed transaction (WithDate/WithReference/WithPostings/WithMetadata). R08b (shared with C08) the compilation cache is keyed by a digest of the whole script: generated scripts that share a long prefix never run the program of another one. R09l every TransactionData/RunScript built from a transaction request (v1 and v2/bulk) takes the request's Timestamp, Reference and Metadata by name. R09k every handler of internal/api that answers an error returns before it calls the engine or answers again (a request that failed validation is never executed). R09i every request decoded inside a loop (bulk elements) is decoded into a value allocated in that iteration. R09g exact amounts: no floating-point value, math/big.Float or float parser in the packages that decode, execute and commit postings. R09d validation precedes execution (v1: Postings.Validate dominates TxToScriptData; all versions: SetVarsFromJSON precedes ResolveResources on the same machine).",
 		NotDecided:  "that the VM turns each generated `send` into exactly that posting (needs the undecided part of C08); merging of identical consecutive postings by the VM, if any.",
 		Trusted:     []string{"fmt.Sprintf with %d prints digits only"},
 	}, runC09)
@@ -30,6 +30,7 @@ func runC09(c *Ctx) {
 	ruleFreshDecode(c, "R09i")
 	ruleAnswerEndsHandler(c, "R09k", nil, 8)
 	ruleR09l(c, "R09l")
+	ruleR08b(c)
 	fn := c.MustFn("R09a", pkgLedger, "TxToScriptData")
 	if fn == nil {
 		return
